@@ -188,6 +188,12 @@ fn gen_session(rng: &mut Rng) -> Value {
     let nops = 1 + rng.below(6);
     let mut ops = vec![];
     for _ in 0..nops {
+        if rng.chance(1, 10) {
+            // an analysis that fails (input longer than 49,149 bytes), with or without a per-call mode: later calls must not notice
+            ops.push(json!({"op": "tokenize", "text": "あ".repeat(20000), "mode": if rng.chance(2, 3) { json!(*rng.pick(&modes[..])) } else { Value::Null }, "out": rng.chance(1, 2)}));
+            ops.push(json!({"op": "tokenize", "text": "東京都に行った", "mode": Value::Null, "out": rng.chance(1, 2)}));
+            continue;
+        }
         match rng.below(6) {
             0 | 1 | 2 => ops.push(json!({"op": "tokenize", "text": rand_text(rng),
                 "mode": if rng.chance(1, 3) { json!(*rng.pick(&modes[..])) } else { Value::Null }, "out": rng.chance(1, 2)})),
@@ -303,6 +309,9 @@ pub fn run(args: &Args) {
                 {"op": "tokenize", "text": "東京都に行った。", "mode": "A", "out": false}, {"op": "tokenize", "text": "東京都に行った。", "mode": null, "out": true},
                 {"op": "split", "index": 0, "mode": "A", "out": true, "add_single": true}, {"op": "split", "index": 1, "mode": "A", "out": true, "add_single": false},
                 {"op": "tokenize", "text": "", "mode": null, "out": true}, {"op": "lookup", "query": "東京都", "out": true}]}),
+            json!({"mode": "C", "fields": null, "projection": null, "ops": [
+                {"op": "tokenize", "text": "あ".repeat(20000), "mode": "A", "out": false}, {"op": "tokenize", "text": "東京都", "mode": null, "out": false},
+                {"op": "tokenize", "text": "あ".repeat(20000), "mode": null, "out": true}, {"op": "tokenize", "text": "東京都", "mode": null, "out": true}]}),
             json!({"mode": "A", "fields": ["dictionary_form"], "projection": "dictionary", "ops": [{"op": "tokenize", "text": "👍🏻é東京都に行った", "mode": null, "out": false}]}),
         ];
         for _ in 0..args.n(250, 4000) {
@@ -343,7 +352,28 @@ pub fn run(args: &Args) {
                         println!("library : {}", serde_json::to_string(&mine).unwrap());
                         println!("python  : {}", serde_json::to_string(&theirs).unwrap());
                     }
+                    // with a field subset only the requested fields are promised (earlier mode changes may leave more loaded)
+                    let requested: Option<Vec<String>> = s["fields"].as_array().map(|a| a.iter().map(|x| x.as_str().unwrap().to_string()).collect());
+                    let restrict = |v: &Value| -> Value {
+                        let mut v = v.clone();
+                        if let (Some(req), Some(ms)) = (&requested, v["morphemes"].as_array_mut()) {
+                            for m in ms.iter_mut() {
+                                let o = m.as_object_mut().unwrap();
+                                let has = |n: &str| req.iter().any(|r| r == n);
+                                if !has("pos") && !has("pos_id") { o.remove("pos"); o.remove("pos_id"); }
+                                if !has("dictionary_form") { o.remove("dictionary_form"); }
+                                if !has("normalized_form") { o.remove("normalized_form"); }
+                                if !has("reading_form") { o.remove("reading_form"); }
+                                if !has("synonym_group_id") { o.remove("synonym_group_ids"); }
+                            }
+                        }
+                        v
+                    };
                     for (k, (a, b)) in mine.iter().zip(theirs.iter()).enumerate() {
+                        // lookup always loads all fields
+                        let is_lookup = s["ops"][k]["op"] == "lookup";
+                        let a = &(if is_lookup { a.clone() } else { restrict(a) });
+                        let b = &(if is_lookup { b.clone() } else { restrict(b) });
                         let mut b2 = b.clone();
                         // a failing slice check is reported on its own
                         let mut slice_bad = false;
